@@ -231,8 +231,11 @@ class Schema:
 
     def add_schema(self, schema, root_path: DataPath):
         for rule in schema.rules:
-            rule.path = root_path / rule.path
-            self.rules.append(rule)
+            # re-root a copy; the rule still belongs to `schema`, which must be left
+            # unchanged (and may be added again under another root path):
+            new_rule = copy.copy(rule)
+            new_rule.path = root_path / rule.path
+            self.rules.append(new_rule)
 
         self.rules = sorted(self.rules, key=lambda i: len(i.path))
 
